@@ -46,6 +46,7 @@ Valid(k) ==
     <<[I0 EXCEPT !.tag = "length", !.name = Ln(k), !.type = "char", !.optional = TRUE], [I0 EXCEPT !.tag = "array", !.name = Nm(k), !.type = "short", !.len = Ref(Ln(k)), !.optional = TRUE]>>,
     <<[I0 EXCEPT !.tag = "array", !.name = Nm(k), !.type = "Color", !.len = Lit(2)]>>,
     <<[I0 EXCEPT !.tag = "array", !.name = Nm(k), !.type = "Item"]>>,
+    <<[I0 EXCEPT !.tag = "array", !.name = Nm(k), !.type = "CPair"]>>,
     <<[I0 EXCEPT !.tag = "array", !.name = Nm(k), !.type = "bool", !.optional = TRUE]>>,
     <<[I0 EXCEPT !.tag = "array", !.name = Nm(k), !.type = "Named", !.delimited = TRUE, !.trailing = TRUE]>>,
     <<[I0 EXCEPT !.tag = "array", !.name = Nm(k), !.type = "short", !.len = Lit(2), !.delimited = TRUE, !.trailing = FALSE]>>,
